@@ -176,7 +176,7 @@ def main(argv):
     if ck.replay:
         hs = [read_replay(ck.replay)]
     else:
-        n = 1000 if ck.tier == "quick" else 6000
+        n = 1000 if ck.tier == "quick" else 12000
         hs = CORPUS + [gen_history(ck.rng, ck.tier == "thorough") for _ in range(n)]
     ck.correspond(hb, db, hs, label="jsonpath", ubsan_is_violation=r"types/json\.|utils/lex\.",
                   nontrivial=lambda h, obs: any(o == "ok" for o in obs))
